@@ -119,6 +119,9 @@ func runC09(c *Ctx) {
 	}
 	c.Count("reviewed table rows", len(c09Table))
 
+	// ---- hang rules (join counters and result channels local to a handler)
+	checkHangRules(c, fns)
+
 	// ---- validators answer Reject/Ignore on error edges
 	acc, _ := p.constValue("pkg/p2p", "ValidationAccept")
 	nv := 0
